@@ -1,5 +1,6 @@
 import JunoModel.C18.ProofsRunner
 import JunoModel.C18.ProofsBlockTx
+import JunoModel.C18.ProofsSDL
 /-!
 C18 — property theorems (statements only; helper lemmas are in `ProofsSV`, `ProofsRunner`,
 `ProofsBlockTx`). Every theorem in this module is an obligation listed in evidence/C18.json.
@@ -24,6 +25,11 @@ theorem schemaVersion_set_semantics (a b : SV) (i j : Nat) :
     (SV.contains a b = true ↔ ∀ k, SV.has b k = true → SV.has a k = true) ∧
     (j ∈ SV.iter a ↔ SV.has a j = true) ∧ (SV.iter a).Pairwise (· < ·) :=
   ⟨SV.has_set a i j, SV.has_diff a b j, SV.contains_iff a b, SV.mem_iter a j, SV.iter_sorted a⟩
+
+/-- `Iter` as written in version.go (trailing-zeros walk: `offset`, `n >>= offset+1`, `idx += offset+1`)
+yields exactly the set bits in ascending order, for every 64-bit value. -/
+theorem iter_transcription_correct (s : SV) : SV.iterGo s = SV.iter s :=
+  SV.iterGo_eq_iter s
 
 /-- The target has bit `j` iff migration `j` is registered and mandatory or enabled. -/
 theorem target_spec (r : Registry) (hr : r.ok = true) (j : Nat) :
@@ -270,7 +276,49 @@ theorem blocktx_empty_database (cfg : BlockTx.Cfg) (db : Db) (hh : db.height = n
     migrate cfg db steps = (db, .done) := by
   unfold migrate; rw [hh]
 
+/-! ## The state-diff-length backfill -/
+
+/-- For every database whose retained blocks `[o, h]` have their records, every checkpoint `next`
+below which everything is already backfilled (0 on a fresh run), and whatever the environment does
+during one `Migrate` call (cancelled after any number of blocks, death with any subset of the
+handed-out blocks committed): only `StateDiffLength` of retained blocks changes, and only to the
+block's state-diff length; the checkpoint the runner keeps afterwards is sound (every retained
+block below it is backfilled — after a death that is the OLD checkpoint); `(nil, nil)` means every
+retained block is backfilled; the migration never fails. -/
+theorem statedifflength_checkpoint_sound (db : SDL.Db) (h o next : Nat) (hr : SDL.Retained db h o)
+    (hg : SDL.Good db o next) (st : SDL.Step) :
+    SDL.Step' db (SDL.migrate db next st).1 o h ∧
+    SDL.Good (SDL.migrate db next st).1 o (SDL.nextCheckpoint next (SDL.migrate db next st).2) ∧
+    ((SDL.migrate db next st).2 = .done → SDL.Good (SDL.migrate db next st).1 o (h + 1)) ∧
+    (SDL.migrate db next st).2 ≠ .failed :=
+  SDL.migrate_sound hr hg st
+
+/-- Any sequence of interrupted `Migrate` calls (the runner threading the checkpoint) followed by an
+undisturbed one returns `(nil, nil)` and reaches exactly the database in which every retained block
+carries its state-diff length and nothing else changed — the database of an undisturbed run. -/
+theorem statedifflength_resume_same_result (db : SDL.Db) (h o next : Nat) (hr : SDL.Retained db h o)
+    (hg : SDL.Good db o next) (steps : List SDL.Step) :
+    (SDL.migrate (SDL.attempts db next steps).1 (SDL.attempts db next steps).2 (.pass none)).2 = .done ∧
+    (SDL.migrate (SDL.attempts db next steps).1 (SDL.attempts db next steps).2 (.pass none)).1 =
+      SDL.backfilled db o h :=
+  SDL.resume_sdl hr hg steps
+
+/-- A pruned prefix (blocks 0–1 without records), blocks 2–5 retained, nothing backfilled yet. -/
+def sdlDb : SDL.Db := ⟨some 5, fun b => if b < 2 then ⟨false, 0, 0⟩ else ⟨true, b + 1, 0⟩⟩
+
 /-! ## Non-vacuity -/
+
+example : SDL.Retained sdlDb 5 2 := by
+  refine ⟨rfl, by decide, ?_⟩
+  intro b h1 h2
+  have : ¬ b < 2 := by omega
+  simp [sdlDb, this]
+example : SDL.Good sdlDb 2 0 := fun b h1 h2 => by omega
+-- cancelled after one block: checkpoint 3, block 2 done, block 3 not yet
+example : (SDL.migrate sdlDb 0 (.pass (some 1))).2 = .rerun 3 ∧
+    ((SDL.migrate sdlDb 0 (.pass (some 1))).1.blk 2).stored = 3 ∧
+    ((SDL.migrate sdlDb 0 (.pass (some 1))).1.blk 3).stored = 0 := by decide
+
 
 -- the hypotheses of the block-transactions theorems are met by concrete databases
 example : WFOrig (fun _ => ([1], [101])) := fun _ => rfl
